@@ -449,4 +449,10 @@ def R6_plumbing(ctx):
         ctx.check(good, "%s:%s-from-this-query-unmodified" % (inst, field), "the model's %s is not exactly what was parsed from this query (filtered, defaulted or replaced?): %s" % (field, det), sb.where(), detail="%s = %s" % (field, short(src)[:80]))
 
 
-RULES = [R1_gate, R1b_strict_relaxation, R2_conjunction, R3_predicates, R3b_parser, R4_who_may_call, R5_pair_order, S0, R6_plumbing]
+def R7_cut_instance(ctx):
+    """C04.R7 edges cut by an alternative-route search: the search really runs on the cut instance"""
+    from props.C13 import spur_instance_rule
+    spur_instance_rule(ctx, "C04.R7")
+
+
+RULES = [R1_gate, R1b_strict_relaxation, R2_conjunction, R3_predicates, R3b_parser, R4_who_may_call, R5_pair_order, S0, R6_plumbing, R7_cut_instance]
